@@ -50,12 +50,12 @@ class GP:
 
 
 class GMeth:
-    """Zero-argument method with a stable repr."""
+    """Method (any arguments) with a stable repr."""
 
     def __init__(self, v):
         self.v = v
 
-    def __call__(self):
+    def __call__(self, *args, **kw):
         return self.v
 
     def __repr__(self):
@@ -84,8 +84,15 @@ class GList(list):
     path = 'lst'
 
 
+# method names that helper code of a template engine is tempted to call on
+# a value directly; here they are attributes the guard always refuses
+WELL_KNOWN = ('strftime', 'isoformat', 'read', 'items', 'values', 'get',
+              'getId', 'title_or_id', 'absolute_url', 'index_html',
+              'tpValues', 'tpId', 'tpURL')
+
+
 def attr_denied(policy, role, idx, name):
-    if name[:1] == '_':
+    if name[:1] == '_' or name in WELL_KNOWN:
         return True
     for r, i, n in policy.get('attr', ()):
         if n == name and r in ('*', role) and i in ('*', idx):
@@ -122,6 +129,8 @@ def build(policy, run, depth=2):
         n._prv = val(path, '_prv', True)
         n.num = val(path, 'num', hid('num'), numeric=True)
         n.meth = GMeth(val(path, 'meth', hid('meth')))
+        for wk in WELL_KNOWN:
+            setattr(n, wk, GMeth(val(path, wk, True)))
         if d > 0:
             n.child = node('child', 0, path + '.child', hid('child'), d - 1)
             n._kid = node('child', 0, path + '._kid', True, 0)
@@ -160,14 +169,18 @@ def guarded_class():
     class Guarded(HTML):
         policy = {}
         stats = None
+        # a lenient guard applies its policy but does not itself refuse
+        # underscore names: that protection must come from the engine
+        lenient = False
 
         def guarded_getattr(self, inst, name, default=mark):
-            if isinstance(inst, GP) and attr_denied(self.policy, inst.role,
-                                                    inst.idx, name):
+            if isinstance(inst, GP) and attr_denied(
+                    self.policy, inst.role, inst.idx, name) and not (
+                        self.lenient and name[:1] == '_'):
                 if self.stats is not None:
                     self.stats['refused'] += 1
                 raise Unauthorized(name)
-            if name[:1] == '_':
+            if name[:1] == '_' and not self.lenient:
                 raise Unauthorized(name)
             try:
                 v = getattr(inst, name)
@@ -236,9 +249,15 @@ def seqref(draw, scope):
 
 @st.composite
 def leaf(draw, scope):
-    k = draw(st.integers(0, 11))
+    k = draw(st.integers(0, 13))
     a = draw(st.sampled_from((PLAIN + ('meth', 'pub', 'sec')) * 3 +
                              ('_prv',)))
+    if k == 12:
+        return '<dtml-var "%s" fmt="%s">' % (draw(ref(scope)), draw(
+            st.sampled_from(['%s|', '%Y-%m-%d', '%10s', '[%r]'])))
+    if k == 13:
+        return '<dtml-var "%s" fmt=%s>' % (draw(ref(scope)), draw(
+            st.sampled_from(WELL_KNOWN[:6] + ('meth',))))
     if k == 0 and scope['pushed']:
         return '<dtml-var %s missing="-">' % draw(st.sampled_from(
             PLAIN + ('meth', '_prv', 'pub', 'sec')))
@@ -412,6 +431,8 @@ def case(draw):
         c['sub'] = draw(st.sampled_from(['guarded', 'plain']))
     if draw(st.integers(0, 5)) == 0:
         c['plain_first'] = True
+    if draw(st.integers(0, 3)) == 0:
+        c['lenient'] = True
     if c.get('sub') and draw(st.booleans()):
         # the sub-template object is shared: it was rendered before from a
         # template whose guard refuses nothing
@@ -433,10 +454,12 @@ def render(c, run, stats=None, shared=None, policy=None):
         sub = shared if shared is not None else cls(src)
         if cls is G:
             sub.policy, sub.stats = policy, stats
+            sub.lenient = bool(c.get('lenient'))
         ns['subt'] = sub
         src = '[<dtml-var subt>]'
     t = G(src)
     t.policy, t.stats = policy, stats
+    t.lenient = bool(c.get('lenient'))
     client = None
     if c.get('client') == 'o':
         client = ns['o']
@@ -475,7 +498,8 @@ def check(c):
     if a[0] == 'raise' and a[1] not in ('Unauthorized', 'KeyError',
                                         'AttributeError', 'IndexError',
                                         'TypeError', 'ParseError',
-                                        'NameError', 'SyntaxError'):
+                                        'NameError', 'SyntaxError',
+                                        'ValueError'):
         return ('gen:unexpected-exception:' + a[1],
                 '%r policy %r: %r' % (c['src'], c['policy'], a)), info
     return None, info
